@@ -4,6 +4,9 @@ import Alpen.Model.Clean
 import Alpen.Model.PostAdd
 import Alpen.Model.Check
 import Alpen.Model.Reserve
+import Alpen.Model.UpDown
+import Alpen.Model.Queue
+import Alpen.Model.Task
 /-!
 Line-protocol driver: one operation per line on stdin, one canonical answer line on
 stdout.  Strings travel as comma-separated code points (`-` = empty string).
@@ -123,16 +126,72 @@ def pure1 (toks : List String) : Option String :=
 
 end Drv
 
-partial def loop (h : IO.FS.Stream) (out : IO.FS.Stream) : IO Unit := do
+namespace Drv
+
+/-- state of the stateful models driven over several lines -/
+structure St where
+  ud : UD := UD.init
+  udThreads : List Nat := []      -- thread ids seen (for dumps)
+  q : Q := Q.init
+  qKeys : List Nat := []
+
+def uoutStr : UOut → String
+  | .acquired => "acquired" | .refused => "refused" | .timedOut => "timedOut" | .parked => "parked"
+  | .error => "error" | .released => "released" | .ignored => "ignored"
+
+def noteThread (s : St) (t : Nat) : St :=
+  if s.udThreads.contains t then s else { s with udThreads := s.udThreads ++ [t] }
+
+def insertSorted (x : Nat) : List Nat → List Nat
+  | [] => [x]
+  | y :: ys => if x ≤ y then x :: y :: ys else y :: insertSorted x ys
+
+def sortNats (l : List Nat) : List Nat := l.foldl (fun acc x => insertSorted x acc) []
+
+def udDump (s : St) : String :=
+  let ts := sortNats s.udThreads
+  let own := ts.filterMap (fun t => if s.ud.owners t > 0 then some s!"{t}:{s.ud.owners t}" else none)
+  let prk := ts.filterMap (fun t => match s.ud.parked t with
+    | some p => some s!"{t}:{encBool p.isDown}:{encBool p.notified}" | none => none)
+  let o := if own.isEmpty then "-" else ",".intercalate own
+  let p := if prk.isEmpty then "-" else ",".intercalate prk
+  s!"count={s.ud.count} owners={o} parked={p} clock={s.ud.clock}"
+
+def stateful (s : St) (toks : List String) : Option (St × String) :=
+  match toks with
+  | ["u.reset"] => some ({ s with ud := UD.init, udThreads := [] }, "ok")
+  | ["u.acq", t, d, b, to] => do
+      let t ← t.toNat?; let d ← decBool d; let b ← decBool b; let to ← decOptNat to
+      let (ud', o) := ustep s.ud (.acq t d b to)
+      pure (noteThread { s with ud := ud' } t, uoutStr o)
+  | ["u.wake", t] => do
+      let t ← t.toNat?
+      let (ud', o) := ustep s.ud (.wake t)
+      pure ({ s with ud := ud' }, uoutStr o)
+  | ["u.rel", t, d] => do
+      let t ← t.toNat?; let d ← decBool d
+      let (ud', o) := ustep s.ud (.rel t d)
+      pure (noteThread { s with ud := ud' } t, uoutStr o)
+  | ["u.tick", dt] => do
+      let dt ← dt.toNat?
+      pure ({ s with ud := (ustep s.ud (.tick dt)).1 }, "ok")
+  | ["u.dump"] => some (s, udDump s)
+  | _ => none
+
+end Drv
+
+partial def loop (h : IO.FS.Stream) (out : IO.FS.Stream) (s : Drv.St) : IO Unit := do
   let line ← h.getLine
   if line.isEmpty then return ()
   let toks := (line.trimAscii.toString.splitOn " ").filter (· ≠ "")
   match Drv.pure1 toks with
-  | some r => out.putStrLn r
-  | none => out.putStrLn "bad-op"
-  loop h out
+  | some r => out.putStrLn r; loop h out s
+  | none =>
+    match Drv.stateful s toks with
+    | some (s', r) => out.putStrLn r; loop h out s'
+    | none => out.putStrLn "bad-op"; loop h out s
 
 def main : IO Unit := do
   let out ← IO.getStdout
-  loop (← IO.getStdin) out
+  loop (← IO.getStdin) out {}
   out.flush
